@@ -197,11 +197,13 @@ static void drain(void)
 #ifndef RB_SHIM
 static void seq_case(long long c)
 {
-	static const size_t lens[] = { 2, 3, 4, 5, 6, 7, 8, 9, 16, 255, 256, 257 };
+	static const size_t lens[] = { 2, 3, 4, 5, 6, 7, 8, 9, 16, 255, 256, 257, 1000, 65535, 65536, 65537 };
 	vh_rng_t r;
 	vh_rng_seed(&r, vh_opt.seed, 5, (uint64_t)c);
-	size_t len = lens[c % 12];
-	unsigned start = (unsigned)((c / 12) % len);
+	size_t len = lens[c % 16];
+	unsigned start = (unsigned)((c / 16) % len);
+	if (len > 300 && vh_below(&r, 2))
+		start = (unsigned)(len - 1 - vh_below(&r, 40)); /* close to the wrap */
 	char key[64];
 	snprintf(key, sizeof(key), "seq:case=%lld", c);
 	vh_case_key(key);
@@ -210,6 +212,8 @@ static void seq_case(long long c)
 	snprintf(scen, sizeof(scen), "sequential, buf_len %zu, start index %u", len, start);
 	vh_case_desc("%s", scen);
 	int nops = (int)(3 * len) + (int)vh_below(&r, (uint32_t)(20 * (len < 40 ? len : 40)));
+	if (len > 300 && (c / 16) % 40 != 0)
+		nops = 200 + (int)vh_below(&r, 600); /* large rings are filled completely only once in 40 cases */
 	int bias = (int)vh_below(&r, 3);
 	for (int i = 0; i < nops && !failed; i++) {
 		uint32_t x = vh_below(&r, 100);
